@@ -360,7 +360,10 @@ def make_naming(spec: dict[str, Any], scenario: str, rng: Any, gen_names: set[st
             naming["tags"][str(i["id"])] = [[rng.choice(["prefix", "prefix", "named"]), nm]]
         naming["expect"] = "either"      # Named may legitimately be refused
     if scenario == "named":
-        node_ids = [n["id"] for n in spec["nodes"]]
+        # (a loopy call is not an array, its results are entries of a container: neither
+        # can carry a naming tag of its own)
+        node_ids = [n["id"] for n in spec["nodes"]
+                    if n["op"] not in ("call_loopy", "getitem_named")]
         for nid in rng.sample(node_ids, min(len(node_ids), 3)):
             cands = [c for c in legal if c not in out_used]
             if not cands:
@@ -463,7 +466,7 @@ def check_case(case: dict[str, Any], col: common.Collector) -> None:
     if "naming" in case:
         naming, close = case["naming"], True
     else:
-        node_ids = [n["id"] for n in spec["nodes"]]
+        node_ids = [n["id"] for n in spec["nodes"] if n["op"] != "call_loopy"]
         stored = {str(n): [["stored", None]] for n in
                   rng.sample(node_ids, min(len(node_ids), 3))}
         gen_names = first_pass(spec, stored)
